@@ -27,6 +27,7 @@ THEOREMS = [
     'C15.point_dispatch', 'C15.input_unchanged',
     'C15.atol_resolution', 'C15.point_atol_passthrough', 'C15.within_iff', 'C15.within_tie', 'C15.within_zero_tol',
     'C15.within_mono', 'C15.zero_tol_offsite', 'C15.symbols_masses_kept',
+    'C15.resolve_pos_iff_unique', 'C15.interstitial_ok_iff_free',
 ]
 PARTIAL = {
     'periodic image beyond the adjacent cells': 'pos_eq_index_selection is proved for a position that is the atom '
@@ -364,9 +365,11 @@ def _atol_candidates(m):
     if m == 0:
         return [(None, 'default'), (0, 'zero'), (1e-12, 'tiny'), (0.0625, 'above'), (1.0, 'above'), (-0.125, 'negative'),
                 (100.0, 'huge')]
+    import math
     return [(None, 'default'), (0, 'zero'), (1e-12, 'tiny'), (float(m), 'tie'), (float(m - EPS12), 'just-below'),
-            (float(m + EPS12), 'just-above'), (float(m / 2), 'below'), (float(2 * m), 'above'), (float(-m), 'negative'),
-            (100.0, 'huge')]
+            (float(m + EPS12), 'just-above'), (math.nextafter(float(m), 0.0), 'ulp-below'),
+            (math.nextafter(float(m), 2.0), 'ulp-above'), (float(m) * (1 - 2.0 ** -20), 'ppm-below'),
+            (float(m / 2), 'below'), (float(2 * m), 'above'), (float(-m), 'negative'), (100.0, 'huge')]
 
 
 def _atol_types(v):
@@ -489,10 +492,13 @@ def _gen_op(rng, system):
             op['db_vect'] = [cm.dyadic(rng, -0.25, 0.25, 5) for _ in range(3)]
         else:
             op['db_vect'] = [cm.dyadic(rng, -1, 1, 3) for _ in range(3)]
+            if rng.random() < 0.15:
+                op['db_vect'] = [float(rng.randint(-1, 1)) for _ in range(3)]
+        op['dbstyle'] = rng.choice(['array', 'array', 'list', 'tuple', 'intlist'])
     if op['via'] == 'point' and fn == 'vacancy' and rng.random() < 0.25:
         op['omit_type'] = True                           # ptd_type defaults to 'v'
-    if op['via'] == 'point' and rng.random() < 0.12:
-        bad = rng.choice(['v+db', 'v+kw', 'i+ptd', 'i+db', 's+db', 'badtype'])
+    if op['via'] == 'point' and rng.random() < 0.14:
+        bad = rng.choice(['v+db', 'v+kw', 'i+ptd', 'i+db', 's+db', 'badtype', 'badtype'])
         op['note'].append('dispatch:' + bad)
         if bad == 'v+db' and fn == 'vacancy':
             op['db_vect'] = [0.25, 0.0, 0.0]
@@ -505,7 +511,8 @@ def _gen_op(rng, system):
         elif bad == 's+db' and fn == 'substitutional':
             op['db_vect'] = [0.25, 0.0, 0.0]
         elif bad == 'badtype':
-            op['ptd_type'] = rng.choice(['x', 'V', 'vac', ''])
+            op['ptd_type'] = rng.choice(['x', 'vac', '', FN_TYPE[fn].upper(), FN_TYPE[fn].upper(), FN_TYPE[fn] * 2,
+                                         {'v': 'vacancy', 'i': 'interstitial', 's': 'substitutional', 'db': 'dumbbell'}[FN_TYPE[fn]]])
             op.pop('omit_type', None)
     return op
 
@@ -577,6 +584,15 @@ def _call(op, system):
         elif style == 'intarray':
             pos = np.array([int(x) for x in pos])
     db = None if op['db_vect'] is None else np.array(op['db_vect'], dtype=float)
+    if db is not None:
+        dbstyle = op.get('dbstyle', 'array')
+        if dbstyle == 'list':
+            db = [float(x) for x in op['db_vect']]
+        elif dbstyle == 'tuple':
+            db = tuple(float(x) for x in op['db_vect'])
+        elif dbstyle == 'intlist' and all(float(x) == int(x) for x in op['db_vect']):
+            db = [int(x) for x in op['db_vect']]
+    args_before = (copy.deepcopy(pos), copy.deepcopy(db), copy.deepcopy(kw))
     atol = _atol_obj(op)
     ptd = op['ptd_id']
     if ptd is not None and op.get('ptd_np'):
@@ -612,6 +628,8 @@ def _call(op, system):
             r = D.substitutional(system, pos=pos, ptd_id=ptd, scale=sc, atol=atol, **kw)
         else:
             r = D.dumbbell(system, pos=pos, ptd_id=ptd, db_vect=db, scale=sc, atol=atol, **kw)
+        if not _same_args(args_before, (pos, db, kw)):
+            return ('err', 'other', 'ArgumentMutated: the pos / db_vect / property-value objects of the caller were modified')
         return ('ok', r)
     except ValueError as e:
         return ('err', 'value', f'{type(e).__name__}: {e}')
@@ -623,6 +641,18 @@ def _call(op, system):
         return ('err', 'index', f'{type(e).__name__}: {e}')
     except Exception as e:  # noqa
         return ('err', 'other', f'{type(e).__name__}: {e}')
+
+
+def _same_args(a, b):
+    np = _np()
+
+    def eq(x, y):
+        if isinstance(x, dict):
+            return set(x) == set(y) and all(eq(x[k], y[k]) for k in x)
+        if x is None or y is None:
+            return x is None and y is None
+        return np.array_equal(np.asarray(x), np.asarray(y))
+    return all(eq(x, y) for x, y in zip(a, b))
 
 
 def _v3(x):
@@ -659,6 +689,7 @@ def _state(system):
             'origin': [Fraction(x) for x in system.box.origin.tolist()],
             'pbc': [bool(b) for b in system.pbc], 'symbols': list(system.symbols),
             'masses': [None if m is None else Fraction(float(m)) for m in system.masses], 'keys': keys,
+            'dtypes': {k: (v[k].dtype.kind, list(v[k].shape[1:])) for k in system.atoms_prop()},
             'hasold': 'old_id' in v, 'rows': rows}
 
 
@@ -693,12 +724,21 @@ def _sites(st, cart, atol):
             hits.append(i)
         dm = float(m) ** 0.5
         if m > 0 and abs(dm - abs(float(at))) <= 1e-9 * (1 + abs(float(at))):
-            flags.add('near-tol')
+            # a distance that is itself a dyadic number (d2 a perfect square) is computed exactly by
+            # sqrt: the comparison with ANY tolerance, one ulp away included, is then exact
+            flags.add('near-tol-exact-root' if _exact_root(m) else 'near-tol')
         if 0 < dm < 1e-9:
             flags.add('near-zero')
         if m == 0 and abs(float(at)) < 1e-9:
             flags.add('zero-small-tol')
     return hits, flags
+
+
+def _exact_root(m):
+    import math
+    a, b = m.numerator, m.denominator
+    ra, rb = math.isqrt(a), math.isqrt(b)
+    return ra * ra == a and rb * rb == b and (rb & (rb - 1)) == 0 and rb <= (1 << 12)
 
 
 def _geometry_exact(st, op):
@@ -729,7 +769,7 @@ def _undecidable(st, op, flags):
     a NON-dyadic tolerance within 1e-9 of a distance is (a dyadic one — the tie — is decided exactly)."""
     if _geometry_exact(st, op):
         return 'near-tol' in flags and not (op['atol'] is not None and _is_dyadic(op['atol']))
-    return bool(flags)
+    return bool(flags)          # off the grid every flag (also near-tol-exact-root) is a possible rounding flip
 
 
 def _expected(st, op):
@@ -848,6 +888,10 @@ def _check_result(st, op, exp, info, res, before, after, system, result):
     if not res['hasold']:
         bad.append((fn + ':old_id-missing', f'{fn}: result has no old_id property'))
         return bad
+    for k, dt in res['dtypes'].items():
+        want_dt = st['dtypes'].get(k, ('i', []) if k == 'old_id' else None)
+        if want_dt is not None and (dt[0] != want_dt[0] or dt[1] != want_dt[1]) and not (k == 'old_id' and dt[0] in 'iu'):
+            bad.append((fn + ':dtype', f'{fn}: property {k} changed its dtype kind / per-atom shape {want_dt} -> {dt}'))
     nd = info['ndefect']
     loose = _loose(st, op) > 0
     for j, (e, g) in enumerate(zip(exp, res['rows'])):
